@@ -306,8 +306,8 @@ static void companions(const Edge& e) {
 	if (!opt.companions_replica && !opt.companions_copy) return;
 	g_comp.prekey = g_prekey; g_comp.postkey = g_postkey; g_comp.keylen = KEYLEN; g_comp.copy_dev = opt.copy_dev;
 	g_comp.presnap = e.pre_idx >= 0 ? store.snap(e.pre_idx) : nullptr;
-	if (opt.companions_copy && (opt.props & ((1u << C17) | (1u << C01) | (1u << C02) | (1u << C07) | (1u << C11)))) companion_copy(e);
-	if (opt.companions_replica && (opt.props & (1u << C11))) companion_replica(e);
+	if (opt.companions_copy && (opt.props & ((1u << C17) | (1u << C01) | (1u << C02) | (1u << C07) | (1u << C11) | (1u << C18)))) companion_copy(e);
+	if (opt.companions_replica && (opt.props & ((1u << C11) | (1u << C18)))) companion_replica(e);
 }
 
 static void run_monitors(const Edge& e) {
